@@ -78,7 +78,7 @@ class Hang(Exception):
 
 
 def _snapshot():
-    return [(cls, name, cls.__dict__.get(name)) for cls in (mpp.BaseProcess, mpc.Process) for name in ("start", "run")]
+    return [(cls, name, cls.__dict__.get(name)) for cls in (mpp.BaseProcess, mpc.Process) for name in ("start", "run", "_bootstrap")]
 
 
 def _restore(snap):
@@ -99,11 +99,20 @@ def raw_copy(current=None):
     saved_cur = mpp._current_process
     if current is not None:
         mpp._current_process = current
+    hooks = []
+    saved_raf = getattr(os, "register_at_fork", None)
+    if saved_raf is not None:
+        # at-fork hooks the module registers are recorded (and run when a child is "forked" in the
+        # simulation) instead of being installed in this worker process
+        os.register_at_fork = lambda **kw: hooks.append(kw)
     try:
         exec(UTILS_CODE, mod.__dict__)
     finally:
+        if saved_raf is not None:
+            os.register_at_fork = saved_raf
         mpp._current_process = saved_cur
         _restore(snap)
+    mod.__dict__["_c14_atfork"] = hooks
     fd = mod.__dict__.get("_tty_fd", -1)
     if fd != -1 and fd != U0._tty_fd:
         try:
@@ -351,13 +360,29 @@ class VProc:
         if hasattr(mod, "get_context"):
             mod.get_context = lambda method=None: FakeCtx(pid)
         mod._process_start_wrapper.__wrapped__ = fake_start
-        mod._process_run_wrapper.__wrapped__ = lambda self, *a, **k: None
+        # a fresh thread lock created later by the module itself is a stand-in too
+        mod.RLock = lambda: CtlT(f"T{pid}'")
+        for wn in ("_process_run_wrapper", "_process_bootstrap_wrapper"):
+            if hasattr(mod, wn):
+                getattr(mod, wn).__wrapped__ = lambda self, *a, **k: None
         if procobj is not None:
-            if flavour == "fork":
-                # a forked child starts with a copy of the parent's globals
+            base, _, over = flavour.partition("-")
+            if base == "fork":
+                # a forked child starts with a copy of the parent's globals, then the at-fork hooks
+                # registered for the child run
                 mod._tty_lock = parent.mod._tty_lock
-            if flavour in ("run", "fork"):
-                mod._process_run_wrapper(procobj)
+                for kw in mod._c14_atfork:
+                    h = kw.get("after_in_child")
+                    if h is not None:
+                        h()
+            if base in ("run", "fork"):
+                # what the child's interpreter calls: `_bootstrap()`, which calls `run()` — the
+                # library's `run` wrapper is bypassed when a Process subclass overrides run() without
+                # calling the base implementation (flavours `run-o`, `fork-o`)
+                if hasattr(mod, "_process_bootstrap_wrapper"):
+                    mod._process_bootstrap_wrapper(procobj)
+                if hasattr(mod, "_process_run_wrapper") and over != "o":
+                    mod._process_run_wrapper(procobj)
         self.probe = mod.lock_tty(probe_body)
         TRACED[self.probe.__code__] = ("sync", load_offsets(self.probe.__code__))
         self.real_fns = {}
@@ -1155,26 +1180,64 @@ def lock_aliases():
     return sorted(found)
 
 
+def at_fork_sites():
+    """every place of the package that registers an at-fork hook (`os.register_at_fork`,
+    `multiprocessing.util.register_after_fork`)"""
+    import pkgutil
+    import term_image
+    found = []
+    paths = [UTILS_FILE]
+    for info in pkgutil.walk_packages(term_image.__path__, "term_image."):
+        spec = info.module_finder.find_spec(info.name)
+        path = getattr(spec, "origin", None)
+        if path and path.endswith(".py") and path not in paths:
+            paths.append(path)
+    for path in paths:
+        try:
+            code = compile(open(path).read(), path, "exec")
+        except Exception:  # noqa: BLE001
+            continue
+
+        def walk(c):
+            for nm in c.co_names:
+                if nm in ("register_at_fork", "register_after_fork"):
+                    found.append(f"{os.path.basename(path)}:{c.co_name}: {nm}")
+            for k in c.co_consts:
+                if isinstance(k, types.CodeType):
+                    walk(k)
+
+        walk(code)
+    return sorted(set(found))
+
+
 def facts():
     probe = U0.lock_tty(lambda: None)
     sync_ops = wrapper_ops(probe.__code__)
     start_ops = wrapper_ops(U0._process_start_wrapper.__code__, stop_at="_cell_size_lock")
     wrapped = "none"
+    wrapped_methods = []
     for cls, nm in ((mpp.BaseProcess, "multiprocessing.process.BaseProcess"), (mpc.Process, "multiprocessing.context.Process")):
-        if cls.__dict__.get("start") is U0._process_start_wrapper and cls.__dict__.get("run") is U0._process_run_wrapper:
+        if cls.__dict__.get("start") is U0._process_start_wrapper and wrapped == "none":
             wrapped = nm
-            break
+        for attr, v in cls.__dict__.items():
+            for key, val in vars(U0).items():
+                if key.startswith("_process_") and v is val:
+                    wrapped_methods.append(f"{nm}.{attr} <- {key}")
     adoption = []
     marker = object()
-    try:
-        mod = raw_copy()
-        obj = types.SimpleNamespace(_tty_lock=marker, _cell_size_cache=None)
-        mod._process_run_wrapper.__wrapped__ = lambda self, *a, **k: None
-        mod._process_run_wrapper(obj)
-        if mod._tty_lock is marker:
-            adoption.append("run")
-    except Exception:  # noqa: BLE001
-        pass
+    for wn, tag in (("_process_bootstrap_wrapper", "bootstrap"), ("_process_run_wrapper", "run")):
+        try:
+            mod = raw_copy()
+            if not hasattr(mod, wn):
+                continue
+            obj = types.SimpleNamespace(_tty_lock=marker, _cell_size_cache=None, _start_method=None)
+            getattr(mod, wn).__wrapped__ = lambda self, *a, **k: None
+            getattr(mod, wn)(obj)
+            if mod._tty_lock is marker:
+                adoption.append(tag)
+        except Exception:  # noqa: BLE001
+            pass
+    atfork = [f"registered at import: {sorted(kw)}" for kw in raw_copy()._c14_atfork] + at_fork_sites()
     try:
         obj = types.SimpleNamespace(_tty_lock=marker, _cell_size_cache=None, name="x", _identity=(), _config={}, _parent_pid=None)
         mod = raw_copy(current=obj)
@@ -1211,7 +1274,8 @@ def facts():
     return {"tty_fd": U0._tty_fd, "syncOps": sync_ops, "startOps": start_ops, "wrappedClass": wrapped,
             "childAdoption": adoption, "lockTtyUsers": sorted(users),
             "ttyLockSites": [f"{n}: {o}" for n, o in tty_lock_sites()],
-            "moduleInitOrder": module_init_order(), "lockAliases": lock_aliases()}
+            "moduleInitOrder": module_init_order(), "lockAliases": lock_aliases(),
+            "wrappedMethods": sorted(wrapped_methods), "atForkHooks": atfork}
 
 
 def _keeper():
